@@ -458,12 +458,21 @@ def r5_seed_reported(ctx, rep, R='C11.R5'):
     calls = [c for c in own_calls(fi.node) if isinstance(c.func, ast.Attribute) and
              ctx.cg.is_formatter_receiver(c.func.value, fi)]
     ok = False
+    conds = []
+    from .common import guard_literals
     for c in calls:
         src = sources_of(c.args[0], local_assignments(fi.node)) if c.args else set()
-        if 'self.seed' in src and not path_literals(c, fi.node):
-            ok = True
-    rep.check(ok, R, 'Shuffle.report: output.info(<message with self.seed>)',
-              'the seed is not reported (or only conditionally)', key='seed:report',
+        if 'self.seed' in src:
+            # every mode that shuffles reports: a run, a listing (--list-tests clears do_run_tests);
+            # only a layer subprocess may leave the line to its parent
+            lits = [(norm(e), pos) for e, pos in guard_literals(ctx, fi, c)]
+            extra = [l for l in lits if not (l[0].endswith('options.resume_layer') and l[1] is False)]
+            conds = extra
+            if not extra:
+                ok = True
+    rep.check(ok, R, 'Shuffle.report: output.info(<message with self.seed>) in every mode that shuffles',
+              'the seed is not reported, or only under %s: a shuffled listing / run whose seed came from '
+              'the clock cannot be reproduced' % conds, key='seed:report',
               func=fi.qualname, where=ctx.where(fi, fi.node))
     # "re-running with the reported seed reproduces the order": the number printed (with %d, i.e.
     # truncated to an integer) must be the value the generator was seeded with, so a seed the
